@@ -123,6 +123,12 @@ func TestC09Sequential(t *testing.T) {
 				case kind == 2:
 					to = now
 					name = "now"
+				case kind == 4 && !L.IsZero() && L.After(now) && rapid.Bool().Draw(t, "creep"):
+					// the running deadline is pushed forward by less than a millisecond (a
+					// keep-alive that refreshes its deadline on every packet)
+					to = L.Add(time.Duration(rapid.SampledFrom([]int{1, 100, 500, 900, 999}).Draw(t, "us")) * time.Microsecond)
+					name = "creep"
+					c.Label("set/creep")
 				case kind == 3 && rapid.Bool().Draw(t, "farthest"):
 					// as far away as a time.Time or a time.Duration can say
 					to = []time.Time{time.Date(9999, 12, 31, 23, 59, 59, 0, time.UTC), time.Unix(1<<40, 0), now.Add(time.Duration(math.MaxInt64))}[rapid.IntRange(0, 2).Draw(t, "which")]
@@ -161,6 +167,9 @@ func TestC09Sequential(t *testing.T) {
 				verify("Set("+name+")", true, wasExceeded)
 			case op < 70: // advance
 				dd := time.Duration(rapid.IntRange(0, 12).Draw(t, "adv")) * unit
+				if rapid.IntRange(0, 4).Draw(t, "fine") == 0 {
+					dd = time.Duration(rapid.SampledFrom([]int{50, 400, 999, 1500}).Draw(t, "advUs")) * time.Microsecond
+				}
 				clock.Advance(dd)
 				c.Op("advance %v", dd)
 				t.Logf("step %d: advance %v -> vnow=%v, %d callbacks outstanding", i, dd, clock.Offset(), clock.Pending())
